@@ -48,6 +48,7 @@ type Profile struct {
 	TimePromos  float64
 	ModuleCtx   float64 // probability the run uses foreign-module contexts
 	BigInitialHeight float64
+	Burst     float64 // per block probability of a same-height burst of one tight-budget consumer
 }
 
 type pendingTx struct {
@@ -280,7 +281,7 @@ func (g *Gen) oneBlock(active bool) bool {
 		return false
 	}
 	pp := 0.03
-	if g.cfg.Property == "C14" {
+	if g.cfg.Property == "C14" || g.cfg.Property == "C04" {
 		pp = 0.08
 	}
 	if active && g.faults["params"] && g.chance(pp) {
@@ -344,7 +345,7 @@ func (g *Gen) pickReplica() int {
 
 func (g *Gen) genParams() *ParamsOp {
 	p := &ParamsOp{}
-	if g.cfg.Property == "C14" && g.chance(0.6) {
+	if (g.cfg.Property == "C14" && g.chance(0.6)) || (g.cfg.Property == "C04" && g.chance(0.3)) {
 		// governance moves the minimum deposit (only in this profile: C14 is the property that speaks about
 		// "the parameters in force")
 		if g.chance(0.5) {
